@@ -344,7 +344,11 @@ func Verif_C14_policy() {
 	case twoFuncs:
 		vs.Assert("two policies rejected", err != nil)
 	case latency:
-		vs.Assert("known policy accepted", err == nil && string(pol.Policy) == name)
+		if !f.Not && np == 0 {
+			vs.Assert("known policy accepted", err == nil && string(pol.Policy) == name)
+		} else {
+			vs.Assert("a negated policy or one with parameters it does not take is a configuration error", err != nil)
+		}
 	case name == "fixed":
 		ok := !f.Not && np == 1 && !keyed && (pick == 0 || pick == 1 || pick == 2 || pick == 4)
 		if ok {
